@@ -92,7 +92,9 @@ def check(fx, rep, tier):
             rep.oblige(False, "R03.1", "step-guarded", F.loc(n["span"]), "the step to the next instruction is unconditional: no execution bound is enforced")
             continue
         env = T.env_at(ps, iff, mutated)
-        ct = T.term(iff["cond"], env, mutated)
+        # helper methods of the VM itself (an extracted `self.at_iteration_limit(..)`) are read through
+        own_impl = adv.get("impl_self") or "vm::VM"
+        ct = T.inline_calls(T.term(iff["cond"], env, mutated), fx, only=lambda nm: (fx.body(nm) or {}).get("impl_self") == own_impl and not nm.endswith("::current_thread_killed"))
         neg = False
         while ct[0] == "un" and ct[1] == "Not":
             neg = not neg
